@@ -10,7 +10,7 @@ import itertools
 
 from .loop import Cancel
 from .actors import (
-    Item, Unorderable, AwaitableItem, PairIterable, SrcPlan, FnPlan, ALL_FLAVOURS, FN_FLAVOURS, LOGGING_FLAVOURS,
+    Item, Unorderable, Ambiguous, AwaitableItem, PairIterable, SrcPlan, FnPlan, ALL_FLAVOURS, FN_FLAVOURS, LOGGING_FLAVOURS,
     ASYNC_FLAVOURS, CONTAINER_FLAVOURS, SYNC_FLAVOURS, _behave, keyof,
 )
 
@@ -230,7 +230,10 @@ class Gen:
             return self.fn("mod", self.ch.draw(2))
         return self.fn("truth")
 
-    def keyfn(self, allow_none=True):
+    def keyfn(self, allow_none=True, unorderable=False):
+        if unorderable and self.cfg.odd_items and self.ch.chance(1, 10):
+            # keys the stdlib cannot order among each other: one shared None for some items, a number for the others
+            return self.fn("divnone", self.ch.draw(2))
         k = self.ch.draw(5 if allow_none else 4)
         if allow_none:
             if k == 0:
@@ -268,7 +271,7 @@ class Spec:
         return (
             self.tool,
             tuple([(s.flavour, tuple([(keyof(i) if type(i) is Item else repr(i)) for i in s.items]),
-                    tuple([bool(i) for i in s.items]) if self.tool in TRUTHY_TOOLS else ())
+                    tuple([(bool(i) if type(i) is not Ambiguous else None) for i in s.items]) if self.tool in TRUTHY_TOOLS else ())
                    for s in self.srcs]),
             tuple([(f.kind, f.flavour, f.param if type(f.param) is int else 0) if f is not None else None
                    for f in self.fns]),
@@ -894,12 +897,20 @@ def _odd_items(g, items):
     return items
 
 
+def _ambiguous(g, items):
+    """Occasionally an item whose truth value cannot be taken (it raises): only what is looked at can fail"""
+    if items and g.cfg.odd_items and g.ch.chance(1, 6):
+        g.uid += 1
+        items[g.ch.draw(len(items))] = Ambiguous(g.uid)
+    return items
+
+
 @_reg(AGGS, "all")
 class _All(AggBase):
     short_circuit = True
 
     def gen(self, g):
-        return Spec("all", [g.src(g.items(falsy=True))], [], {})
+        return Spec("all", [g.src(_ambiguous(g, g.items(falsy=True)))], [], {})
 
     def a(self, L, spec, S, F):
         return L.all(S[0])
@@ -913,7 +924,7 @@ class _Any(AggBase):
     short_circuit = True
 
     def gen(self, g):
-        return Spec("any", [g.src(g.items(falsy=True))], [], {})
+        return Spec("any", [g.src(_ambiguous(g, g.items(falsy=True)))], [], {})
 
     def a(self, L, spec, S, F):
         return L.any(S[0])
@@ -958,7 +969,7 @@ class _MinMax(AggBase):
 
     def gen(self, g):
         items = _odd_items(g, g.items())
-        key = g.keyfn()
+        key = g.keyfn(unorderable=True)
         default = g.optional()
         return Spec(self.which, [g.src(items)], [key], {"default": default})
 
@@ -1049,7 +1060,7 @@ class _Dict(AggBase):
 class _Sorted(AggBase):
     def gen(self, g):
         items = _odd_items(g, g.items())
-        return Spec("sorted", [g.src(items)], [g.keyfn()], {"reverse": g.ch.chance(1, 2)})
+        return Spec("sorted", [g.src(items)], [g.keyfn(unorderable=True)], {"reverse": g.ch.chance(1, 2)})
 
     def a(self, L, spec, S, F):
         return L.sorted(S[0], key=F[0], reverse=spec.p["reverse"])
@@ -1079,7 +1090,7 @@ class _NBest(AggBase):
     def gen(self, g):
         items = _odd_items(g, g.items())
         n = g.big(len(items) + 3)
-        return Spec(self.which, [g.src(items)], [g.keyfn()], {"n": n})
+        return Spec(self.which, [g.src(items)], [g.keyfn(unorderable=True)], {"n": n})
 
     def a(self, L, spec, S, F):
         if F[0] is None:
